@@ -16,9 +16,9 @@ LEVEL = 'model_checking'
 BUDGET_S = {'quick': 120, 'thorough': 900}
 BOUNDS = {
     'quick': 'owner in {root build function, subbuild, build_file} returning or raising (caught by its caller); one straggler thread '
-             'calling one of the 12 builder methods on the owner\'s builder; every schedule with at most 2 pre-emptions, yield '
+             'calling one of the 12 builder methods on the owner\'s builder; every schedule with at most 3 pre-emptions, yield '
              'point = every library system call and lock acquire; also the straggler started strictly after the close',
-    'thorough': 'pre-emption bound 3',
+    'thorough': 'pre-emption bound 4',
 }
 ASSUMPTIONS = ['thread switches only at environment calls and lock operations']
 WITNESSES = {'quick': ['straggler-rejected', 'straggler-completed-and-recorded', 'straggler-after-close'],
@@ -31,7 +31,7 @@ OWNERS = ['root', 'subbuild', 'build_file']
 
 
 def families(tier):
-    P = 2 if tier == 'quick' else 3
+    P = 3 if tier == 'quick' else 4
     return ([{'name': 'race', 'params': {'P': P, 'methods': COMPLEX}, 'weight': 3},
              {'name': 'race', 'params': {'P': P, 'methods': QUERIES}, 'weight': 3},
              {'name': 'after-close', 'params': {'P': 0, 'methods': METHODS}, 'weight': 1}])
